@@ -80,6 +80,8 @@ pub const ADV: &[PoolName] = &[
     pn("foo_attr", "identifier-trap"),
     pn("x_1", "identifier-trap"),
     pn("foo_1", "identifier-trap"),
+    // the field identifier a namespace declaration `xmlns:ns` is given
+    pn("xmlns_ns", "identifier-trap"),
     pn("a1", "digit"),
     pn("a_1", "digit"),
     pn("A1", "digit"),
@@ -98,6 +100,8 @@ pub const ADV: &[PoolName] = &[
     // lower case followed by a run of capitals
     pn("customerID", "acronym"),
     pn("HTMLBody", "acronym"),
+    // the name the parser gives its own artificial wrapper element
+    pn("root", "internal"),
 ];
 
 pub fn pool(exclude_categories: &[&str]) -> Vec<PoolName> {
@@ -177,6 +181,13 @@ pub fn decorations(k: usize) -> Vec<Deco> {
     let all: Vec<usize> = (0..k).collect();
     if k > 2 {
         out.push(Deco::Attrs(all.clone()));
+    }
+    // text next to exactly one attribute (an element whose only attribute is, say, a namespace
+    // declaration) as well as text next to all of them
+    if k > 1 {
+        for i in 0..k {
+            out.push(Deco::AttrsText(vec![i]));
+        }
     }
     out.push(Deco::AttrsText(all));
     out
